@@ -1,3 +1,4 @@
+import AwsVerif.Gen.MemTraceInit
 /-!
 Model of `source/memtrace.c` (the tracing allocator) together with the three entry points of
 `source/allocator.c` through which a client reaches it (`aws_mem_acquire/calloc/realloc/release`).
@@ -62,11 +63,23 @@ structure Tracer where
   clock     : Nat
 deriving Repr
 
-/-- `s_alloc_tracer_init` (`btAvail` = `aws_backtrace` works; otherwise the level is clamped). -/
+open AwsVerif.Gen.MemTraceInit in
+/-- numeric value of `enum aws_mem_trace_level` (generated from allocator.h) -/
+def Level.code : Level → Nat
+  | .none => MEMTRACE_NONE | .bytes => MEMTRACE_BYTES | .stacks => MEMTRACE_STACKS
+open AwsVerif.Gen.MemTraceInit in
+def Level.ofCode (n : Nat) : Level :=
+  if n = MEMTRACE_NONE then .none else if n = MEMTRACE_BYTES then .bytes else .stacks
+
+/-- the level the tracer runs at: `s_alloc_tracer_init` keeps the requested level when `aws_backtrace()`
+works (`btAvail`) and otherwise passes it through the clamp *generated from memtrace.c* -/
+def effLevel (lvl : Level) (btAvail : Bool) : Level :=
+  if btAvail then lvl else Level.ofCode (AwsVerif.Gen.MemTraceInit.clampNoBacktrace lvl.code)
+
+/-- `s_alloc_tracer_init` (`btAvail` = `aws_backtrace` works on this platform). -/
 def Tracer.new (lvl : Level) (frames : Nat) (btAvail : Bool := true) : Tracer :=
-  let lvl := if !btAvail && lvl == .stacks then .bytes else lvl
-  let f := if frames > 128 then 128 else frames
-  { level := lvl, frames := if lvl == .stacks then (if f = 0 then 8 else f) else 0,
+  let lvl := effLevel lvl btAvail
+  { level := lvl, frames := if lvl == .stacks then AwsVerif.Gen.MemTraceInit.framesClamp frames else 0,
     allocated := 0, allocs := [], stacks := [], clock := 0 }
 
 /-- `aws_atomic_fetch_add(&allocated, n)` on a `size_t` -/
@@ -213,7 +226,8 @@ structure Seq where
   par : Parent
 deriving Repr
 
-def Seq.new (lvl : Level) (frames : Nat) (par : Parent := { blocks := [] }) : Seq := { tr := Tracer.new lvl frames, par := par }
+def Seq.new (lvl : Level) (frames : Nat) (par : Parent := { blocks := [] }) (btAvail : Bool := true) : Seq :=
+  { tr := Tracer.new lvl frames btAvail, par := par }
 
 def freshAddr (par : Parent) (a : Addr) : Bool := a != 0 && !par.live a
 
@@ -450,8 +464,8 @@ def step (s : Sys) : Act → Sys
 def run (s : Sys) (as : List Act) : Sys := as.foldl step s
 
 /-- `hr` / `hc`: the wrapped allocator implements `mem_realloc` / `mem_calloc` -/
-def Sys.init (lvl : Level) (frames : Nat) (hr hc : Bool := true) : Sys :=
-  { sh := { tr := Tracer.new lvl frames, par := { blocks := [], hasRealloc := hr, hasCalloc := hc }, lock := false, owned := [] },
+def Sys.init (lvl : Level) (frames : Nat) (hr hc : Bool := true) (btAvail : Bool := true) : Sys :=
+  { sh := { tr := Tracer.new lvl frames btAvail, par := { blocks := [], hasRealloc := hr, hasCalloc := hc }, lock := false, owned := [] },
     pool := [] }
 
 /-- the system in which nobody is inside the allocator, built from a sequential state -/
